@@ -249,6 +249,9 @@ let parse_op (a : string list) : op option =
   | "layout" :: _ -> Some OLayout
   | ["rt_newick"] -> Some ORtNewick
   | ["reparse"; k] -> Some (OReparse (nat k))
+  | ["set_name"; i; nm] -> Some (OSetName (nat i, some_str nm))
+  | ["rename_by_name"; o; nm] -> Some (ORenameByName (some_str o, some_str nm))
+  | ["set_pedge"; i; e] -> Some (OSetPedge (nat i, dec_len e))
   | ["rt_fmt"; k] -> Some (ORtFmt (fmt_of_nat (nat k)))
   | ["tril"; n; i; j] -> if String.length i > 3 || String.length j > 3 then Some (OTrilN (n_of_dec i, n_of_dec j)) else Some (OTril (nat n, nat i, nat j))
   | ["rowvec"; n; k] -> if String.length k > 3 then Some (ORowvecN (n_of_dec k)) else Some (ORowvec (nat n, nat k))
